@@ -19,6 +19,7 @@ type Engine struct {
 	effects map[*ssa.Function]map[string]bool
 	effectsDone bool
 	stable  map[string]*StableField
+	roParams map[roParam]bool
 	files   []*ast.File
 	globals map[*ssa.Global]*globalInfo
 }
@@ -159,6 +160,11 @@ func (E *Engine) encodeOnce(key string, preset map[string]string, presetTypes []
 		c := f.evalContractMode(rq, f.curHeap, nil, nil, "assume")
 		f.assume(c)
 	}
+	for _, rq := range fc.Assumes {
+		c := f.evalContractMode(rq, f.curHeap, nil, nil, "assume")
+		f.assume(c)
+		enc.note("assumed heap invariant at entry of " + key + " (established by constructors outside the verified set, not checked at call sites): " + rq.Text)
+	}
 	for _, st := range fc.Stable {
 		ctx := &evalCtx{f: f, pkg: fn.Pkg.Pkg, bind: f.selfBind(), heap: f.curHeap, what: "stable clause of " + key}
 		ex, perr := parseExprText(st)
@@ -195,6 +201,7 @@ func (E *Engine) encodeOnce(key string, preset map[string]string, presetTypes []
 	}
 	f.encodeBody(f.curPC, f.curHeap)
 	f.frameObligation()
+	f.fieldCoverObligations()
 	f.postconditions()
 	f.throwObligations()
 	f.unwindObligations()
@@ -209,6 +216,11 @@ func (f *frame) selfBind() map[string]SV {
 	}
 	for _, fv := range f.fn.FreeVars {
 		bind[fv.Name()] = f.vals[fv]
+	}
+	if f.contract != nil && f.contract.Implements != "" {
+		for i, p := range f.fn.Params {
+			bind[fmt.Sprintf("arg%d", i)] = f.vals[p]
+		}
 	}
 	return bind
 }
@@ -248,6 +260,9 @@ func (f *frame) resolveName(name string) (SV, bool) {
 		var k int
 		fmt.Sscanf(name[i+1:], "%d", &k)
 		return f.resolveNth(name[:i], k)
+	}
+	if name == "__rangeindex" {
+		name = "rangeindex"
 	}
 	// phi nodes, innermost loop first
 	var cands []*ssa.Phi
@@ -578,6 +593,7 @@ var nthRe = regexp.MustCompile(`([A-Za-z_][A-Za-z0-9_]*)#([0-9]+)`)
 // parseExprText parses a contract expression; "name#k" (k-th variable of that name) is
 // passed through go/parser as the identifier name__nthk.
 func parseExprText(s string) (ast.Expr, error) {
+	s = strings.ReplaceAll(s, "$i", "__rangeindex")
 	return parser.ParseExpr(nthRe.ReplaceAllString(s, "${1}__nth${2}"))
 }
 
@@ -753,6 +769,10 @@ func (E *Engine) typeInfoFor(fn *ssa.Function) *types.Info {
 // preservedCond: every object that existed at entry has the same value in the preserved
 // fields (objects allocated by this activation have negative references and are exempt).
 func (f *frame) preservedCond(heap Heap) string {
+	return and(f.preservedConds(heap)...)
+}
+
+func (f *frame) preservedConds(heap Heap) []string {
 	e := f.enc
 	var cs []string
 	for _, ks := range e.onlyAtKeys(f.contract.OnlyAt, f.selfBind()) {
@@ -771,7 +791,23 @@ func (f *frame) preservedCond(heap Heap) string {
 		}
 		cs = append(cs, fmt.Sprintf("(forall ((q!r Int)) (=> (>= q!r 0) (= (select %s q!r) (select %s q!r))))", now, then))
 	}
-	return and(cs...)
+	return cs
+}
+
+// frameOblige: one obligation for the frame clauses, solved conjunct by conjunct.
+func (f *frame) frameOblige(name, label, text string, heap Heap, pos token.Pos) {
+	cs := f.preservedConds(heap)
+	if len(cs) == 0 {
+		return
+	}
+	f.oblige(name, label, and(cs...), text, pos)
+	if len(cs) > 1 {
+		var parts []oblPart
+		for _, c := range cs {
+			parts = append(parts, oblPart{PC: f.curPC, Cond: c})
+		}
+		f.enc.obls[len(f.enc.obls)-1].Parts = parts
+	}
 }
 
 func (f *frame) unwindObligations() {
@@ -813,5 +849,60 @@ func (f *frame) unwindObligations() {
 			f.oblige("preserve.unwind", ex.label, f.preservedCond(f.curHeap), "preserves "+strings.Join(fc.Preserves, ", "), ex.pos)
 		}
 		f.curHeap, f.curPC = saveHeap, savePC
+	}
+}
+
+// fieldCoverObligations: "fieldcover T ignore=a,b" – the contract must say something about
+// every field of struct type T (a field added to T later without a clause is reported).
+// Syntactic: the field name must occur as ".name" in some ensures clause.
+func (f *frame) fieldCoverObligations() {
+	fc := f.contract
+	for _, spec := range fc.FieldCover {
+		parts := strings.Fields(spec)
+		if len(parts) == 0 {
+			continue
+		}
+		tn, ok := f.fn.Pkg.Pkg.Scope().Lookup(parts[0]).(*types.TypeName)
+		if !ok {
+			cfail("fieldcover: unknown type %s", parts[0])
+		}
+		st, ok := tn.Type().Underlying().(*types.Struct)
+		if !ok {
+			cfail("fieldcover: %s is not a struct", parts[0])
+		}
+		ignore := map[string]bool{}
+		for _, p := range parts[1:] {
+			if strings.HasPrefix(p, "ignore=") {
+				for _, n := range strings.Split(strings.TrimPrefix(p, "ignore="), ",") {
+					ignore[n] = true
+				}
+			}
+		}
+		var text strings.Builder
+		for _, en := range fc.Ensures {
+			text.WriteString(en.Text)
+			text.WriteString(" ")
+		}
+		all := text.String()
+		var missing []string
+		for i := 0; i < st.NumFields(); i++ {
+			name := st.Field(i).Name()
+			if ignore[name] {
+				continue
+			}
+			if !containsWord(all, "."+name) && !strings.Contains(all, "."+name+" ") && !strings.Contains(all, "."+name+")") && !strings.Contains(all, "."+name+".") && !strings.Contains(all, "."+name+"[") {
+				missing = append(missing, name)
+			}
+		}
+		cond := "true"
+		t := "every field of " + parts[0] + " is covered by an ensures clause"
+		if len(missing) > 0 {
+			cond = "false"
+			t += " -- not covered: " + strings.Join(missing, ", ")
+		}
+		save := f.curPC
+		f.curPC = "true"
+		f.oblige("frame.fieldcover", parts[0], cond, t, token.NoPos)
+		f.curPC = save
 	}
 }
